@@ -17,6 +17,7 @@ func init() {
 			"R-C12-3: every exit of the tunnel->UDP direction closes the UDP connection (unblocking the other direction), and UDP() returns only after waiting for both. " +
 			"R-C12-4: every copy of the record codec encodes and decodes the length as 2 bytes big-endian. " +
 			"R-C12-5: every ticker/timer created in the relays is stopped. " +
+			"R-C12-7: no Write method of the client relay packages retains its argument (sends it on a channel, stores it in a field or heap slot) - the io.Writer contract the relays rely on when they reuse read buffers. " +
 			"R-C12-6: every record decoder reads the prefix with a full read and, after decoding a length, consumes exactly that many bytes with a full read (or leaves) before reading the next prefix. " +
 			"Decides these necessary conditions; does not decide datagram content equality, order or promptness.",
 		Run: runC12,
@@ -435,6 +436,28 @@ func runC12(r *Report) {
 	// the flush goroutine selects on a done channel that the parent closes on every exit
 	checkDoneClosed(r, udp)
 
+	// ---- R-C12-7 writers do not retain the caller's buffer -------------------------------
+	// iocopy.UDP hands out slices of reusable read buffers; a Write that queues or stores
+	// its argument (instead of copying it) lets the next read overwrite a pending datagram.
+	nW := 0
+	for _, pk := range []string{"internal/client/mapping", "internal/client/socks5", "internal/client", "internal/client/tunnel", pkg, "internal/client/transport"} {
+		for _, f := range r.P.FuncsIn(pk) {
+			if f.Name() != "Write" || f.Signature.Recv() == nil || f.Signature.Params().Len() != 1 || f.Signature.Results().Len() != 2 {
+				continue
+			}
+			if sl, ok := f.Signature.Params().At(0).Type().Underlying().(*types.Slice); !ok || (sl.Elem().String() != "byte" && sl.Elem().String() != "uint8") {
+				continue
+			}
+			nW++
+			p := f.Params[1]
+			how := retains(p, 0, map[ssa.Value]bool{})
+			r.Ob("R-C12-7", f.Pos(), how == "", "Write must not retain its argument after returning (io.Writer contract; callers reuse the buffer)"+map[bool]string{true: "", false: ": " + how}[how == ""], r.P.FuncName(f), "writer-does-not-retain")
+		}
+	}
+	if nW < 4 {
+		r.Fail("R-C12-7", 0, fmt.Sprintf("only %d Write methods found in the client relay packages (4 confirmed by hand)", nW), "client", "floor")
+	}
+
 	// ---- R-C12-6 sibling record decoders stay aligned ---------------------------
 	for _, c := range []codec{{"internal/client", "udpTunnelConn.ReceivePacket", false, true}, {"internal/client", "TunnoxClient.handleLocalDNSProxy", false, true}} {
 		f := r.P.Fn(c.pkg, c.fn)
@@ -557,4 +580,80 @@ func checkRecordDecoder(r *Report, f *ssa.Function, name string) {
 		})
 		r.Ob("R-C12-6", dec.Pos(), found, "the record body is read with a full read of exactly the decoded length", name, "record-consumed")
 	}
+}
+
+// retains: does the byte slice v (a Write argument) outlive the call - sent on
+// a channel, stored into a field / element / global, or captured by a
+// goroutine? Returns a description or "".
+func retains(v ssa.Value, depth int, seen map[ssa.Value]bool) string {
+	if v == nil || seen[v] || depth > 5 || v.Referrers() == nil {
+		return ""
+	}
+	seen[v] = true
+	for _, ref := range *v.Referrers() {
+		switch x := ref.(type) {
+		case *ssa.Send:
+			if x.X == v {
+				return "sent on a channel"
+			}
+		case *ssa.Select:
+			for _, st := range x.States {
+				if st.Send == v {
+					return "sent on a channel (select)"
+				}
+			}
+		case *ssa.Store:
+			if x.Val != v {
+				continue
+			}
+			switch a := x.Addr.(type) {
+			case *ssa.FieldAddr:
+				if !IsFresh(a.X) {
+					return "stored in field " + fieldDesc(a.X.Type(), a.Field)
+				}
+				if al, ok := stripValue(a.X).(*ssa.Alloc); ok {
+					if how := retains(al, depth+1, seen); how != "" {
+						return "wrapped in a struct that is " + how
+					}
+				}
+			case *ssa.IndexAddr:
+				return "stored in a slice/array element"
+			case *ssa.Global:
+				return "stored in a global"
+			case *ssa.Alloc:
+				if a.Referrers() != nil {
+					for _, r2 := range *a.Referrers() {
+						if u, ok := r2.(*ssa.UnOp); ok {
+							if how := retains(u, depth+1, seen); how != "" {
+								return how
+							}
+						}
+					}
+				}
+			}
+		case *ssa.Slice:
+			if how := retains(x, depth+1, seen); how != "" {
+				return how
+			}
+		case *ssa.Phi:
+			if how := retains(x, depth+1, seen); how != "" {
+				return how
+			}
+		case *ssa.MakeInterface:
+			if how := retains(x, depth+1, seen); how != "" {
+				return how
+			}
+		case *ssa.MakeClosure:
+			if x.Referrers() != nil {
+				for _, r2 := range *x.Referrers() {
+					if _, isGo := r2.(*ssa.Go); isGo {
+						return "captured by a goroutine"
+					}
+				}
+			}
+		case *ssa.Go:
+			return "passed to a goroutine"
+		}
+	}
+	return ""
 }
